@@ -478,6 +478,23 @@ def _write_bed(path, bins):
             f.write(f"{gen.chromname(c)}\t{s}\t{e}\n")
 
 
+def _bins_arg(d, bed, bins, how):
+    """the BINS argument of load / cload: the BED file, or `<chromsizes>:<binsize>` when the table is a uniform binning
+    (the documented second spelling; the chromsizes file lists the chromosomes in the table's own order)"""
+    if how != "chromsizes" or not bins:
+        return bed, []
+    w = bins[0][2] - bins[0][1]
+    lens = _lens(bins)
+    want = [[c, s0, min(s0 + w, L)] for c, L in enumerate(lens) for s0 in range(0, L, w)]
+    if w <= 0 or want != [list(b) for b in bins]:
+        return bed, []
+    cs = os.path.join(d, "genome.chromsizes")
+    with open(cs, "w") as f:
+        for c, L in enumerate(lens):
+            f.write(f"{gen.chromname(c)}\t{L}\n")
+    return f"{cs}:{w}", [cs]
+
+
 def _read_table(path, cols):
     c = cooler.Cooler(path)
     px = c.pixels()[:]
@@ -529,13 +546,14 @@ def _load(case):
                 random.Random(v["shuffle"]).shuffle(lines)
                 with open(txt, "w") as f:
                     f.write("".join(ln + "\n" for ln in lines))
+            binsarg, extra = _bins_arg(d, bed, store["bins"], v.get("bins_arg"))
             largv = ["load", "-f", fmt] + (["--one-based"] if ob else []) + ([] if store["symm"] else ["-N"]) + \
-                    (["--chunksize", str(cs)] if cs else []) + (["--count-as-float"] if v.get("as_float") else []) + fieldargs + [bed, txt, out]
+                    (["--chunksize", str(cs)] if cs else []) + (["--count-as-float"] if v.get("as_float") else []) + fieldargs + [binsarg, txt, out]
             if os.path.exists(out):
                 os.unlink(out)
             r, _ = _invoke(largv)
             nrun += 1
-            ctx = {"dump_argv": dargv[:-3] + ["-o", "<txt>", "<cool>"], "load_argv": largv[:-3] + ["<bed>", "<txt>", "<out>"],
+            ctx = {"dump_argv": dargv[:-3] + ["-o", "<txt>", "<cool>"], "load_argv": largv[:-3] + ["<bed>" if binsarg == bed else "<chromsizes>:" + binsarg.rsplit(":", 1)[1], "<txt>", "<out>"],
                    "input": "\n".join(lines[:40]), "bins_bed": open(bed).read()}
             # the model on the same lines, cut into the reader's chunks
             toks = [[_tok(t) for t in ln.split("\t")] for ln in lines]
@@ -569,7 +587,7 @@ def _load(case):
                 return {"mismatch": True, **ctx, "what": "schema (C02 raw monitor)", "violated": viol}
         return {"stats": {"loads": nrun}}
     finally:
-        for p in (src, bed, txt, out):
+        for p in (src, bed, txt, out, os.path.join(d, "genome.chromsizes")):
             if os.path.exists(p):
                 os.unlink(p)
 
@@ -633,20 +651,21 @@ def _pairs(case):
                 answers += list(zip(idx, res))
         answers = [a for _, a in sorted(answers, key=lambda t: t[0])]
         first = None
-        for lay, lines, a in zip(case["layouts"], texts, answers):
+        for kk, (lay, lines, a) in enumerate(zip(case["layouts"], texts, answers)):
             assert a["valid_bins"]
             assert not a["at_len"], "generator produced a position at the chromosome length (D13 territory)"
             assert a["l1"] == a["l0"], f"cloadPairs (L1) != pairsSpec (L0): {a}"
             with open(txt, "w") as f:
                 f.write("".join(ln + "\n" for ln in lines))
             c1, p1, c2, p2 = lay["cols"]
+            binsarg, _ = _bins_arg(d, bed, bins, "chromsizes" if kk % 3 == 2 else None)   # every third layout: <chromsizes>:<binsize>
             argv = ["cload", "pairs", "-c1", str(c1), "-p1", str(p1), "-c2", str(c2), "-p2", str(p2)] + (["-0"] if zero else []) + \
                    ([] if symm else ["-N"]) + (["--chunksize", str(cs)] if cs else []) + \
-                   (["--field", f"val={lay['val']}"] if lay.get("val") else []) + [bed, txt, out]
+                   (["--field", f"val={lay['val']}"] if lay.get("val") else []) + [binsarg, txt, out]
             if os.path.exists(out):
                 os.unlink(out)
             r, _ = _invoke(argv)
-            ctx = {"argv": argv[:-3] + ["<bed>", "<pairs>", "<out>"], "input": "\n".join(lines[:30]), "bins_bed": open(bed).read(),
+            ctx = {"argv": argv[:-3] + ["<bed>" if binsarg == bed else "<chromsizes>:" + binsarg.rsplit(":", 1)[1], "<pairs>", "<out>"], "input": "\n".join(lines[:30]), "bins_bed": open(bed).read(),
                    "layout": lay}
             if r.exit_code != 0:
                 if "err" in a["l0"]:
@@ -672,7 +691,7 @@ def _pairs(case):
                 return {"mismatch": True, **ctx, "what": "schema (C02 raw monitor)", "violated": viol}
         return {"stats": {"layouts": len(case["layouts"])}}
     finally:
-        for p in (bed, txt, out):
+        for p in (bed, txt, out, os.path.join(d, "genome.chromsizes")):
             if os.path.exists(p):
                 os.unlink(p)
 
@@ -920,6 +939,7 @@ def _load_variants(rng, store, thorough):
                 vs.append({"fmt": fmt, "one_based": ob, "chunksize": cs})
         vs.append({"fmt": fmt, "one_based": rng.random() < 0.5, "chunksize": rng.choice([1, 2, 3, None]), "shuffle": rng.randrange(10 ** 6)})
         vs.append({"fmt": fmt, "one_based": rng.random() < 0.5, "chunksize": None, "as_float": True})
+        vs.append({"fmt": fmt, "one_based": rng.random() < 0.5, "chunksize": rng.choice([2, None]), "bins_arg": "chromsizes"})
         if store.get("ext") and store["ext"]["kind"] == "int":
             kinds = LOAD_FIELD_KINDS if thorough else rng.sample(LOAD_FIELD_KINDS, 2)
             for k in kinds:
